@@ -99,6 +99,46 @@ Theorem C12_response :
 Proof. exact response_proof. Qed.
 Print Assumptions C12_response.
 
+(* ---- whatever the order in which production takes the kernel snapshot, builds the userspace matcher and
+   turns the snapshot into kernel keys (first start: snapshot, keys, userspace; staged reload: snapshot,
+   userspace, keys at cutover, keys again on rollback), every key list handed to the kernel is the stored
+   (canonical) prefix list of its set, and for every rule the kernel map written from it and the userspace
+   trie match the same addresses, namely those of the set the rule was given.  The snapshot is a value. *)
+Theorem C12_same_set_any_order :
+  forall (hash : list prefix -> N) big ops order m,
+    forallb wf_op ops = true ->
+    order_run false big (mem_init (b_tries (run hash ops))) order = Some m ->
+    (forall inst, In inst (m_installs m) -> inst = kernel_keys_of big (canonical_tries hash ops))
+    /\ (forall inst l r keys t a,
+          In inst (m_installs m) -> m_lpm m = Some l -> In r (b_rules (run hash ops)) -> wf_addr a = true ->
+          nth_error inst (N.to_nat (r_index r)) = Some keys -> nth_error l (N.to_nat (r_index r)) = Some t ->
+          keys = map (cidr_to_lpm_key big) (stored_form r)
+          /\ keys_match big keys a = has_prefix t (probe_bin a)
+          /\ has_prefix t (probe_bin a) = set_contains (r_values r) a).
+Proof. exact same_set_any_order_proof. Qed.
+Print Assumptions C12_same_set_any_order.
+
+(* the hazard the statement guards against: were BuildUserspace to write the backing array it shares with the
+   snapshot while releasing its fields (clear_on_release = true), the staged-reload order would hand the kernel
+   an empty key list for a set whose userspace trie is full *)
+Definition C12_same_set_any_order_if_release_clears : Prop :=
+  forall (hash : list prefix -> N) big ops order m inst l r keys t a,
+    forallb wf_op ops = true ->
+    order_run true big (mem_init (b_tries (run hash ops))) order = Some m ->
+    In inst (m_installs m) -> m_lpm m = Some l -> In r (b_rules (run hash ops)) -> wf_addr a = true ->
+    nth_error inst (N.to_nat (r_index r)) = Some keys -> nth_error l (N.to_nat (r_index r)) = Some t ->
+    keys_match big keys a = has_prefix t (probe_bin a).
+
+Theorem C12_same_set_any_order_if_release_clears_refuted :
+  exists ops order m inst l keys t a,
+    forallb wf_op ops = true /\ wf_addr a = true /\
+    order_run true false (mem_init (b_tries (run hash_lpm_set ops))) order = Some m /\
+    In inst (m_installs m) /\ m_lpm m = Some l /\
+    nth_error inst 0 = Some keys /\ nth_error l 0 = Some t /\
+    keys = [] /\ keys_match false keys a = false /\ has_prefix t (probe_bin a) = true.
+Proof. exact same_set_aliased_clear_refuted_proof. Qed.
+Print Assumptions C12_same_set_any_order_if_release_clears_refuted.
+
 (* ---- non-vacuity: a mixed set (unmasked, nested, mapped literal, IPv4 /0, IPv6) satisfies the hypotheses
    and matches / rejects boundary probes, ::/0 matches everything with kernel prefix length 0; a history
    where two rules share (under the real hash and under a constant one) and two do not *)
@@ -131,3 +171,15 @@ Example C12_share_nonvacuous :
   /\ length (b_tries (run (fun _ => 7) ops)) = 3%nat
   /\ forallb wf_op ops = true.
 Proof. exact share_nonvacuous_proof. Qed.
+
+Example C12_any_order_nonvacuous :
+  let a := {| p_is4 := true; p_addr := 0xc6336400; p_bits := 24 |} in
+  let b := {| p_is4 := false; p_addr := 0x20010db8000000000000000000000000; p_bits := 32 |} in
+  let ops := [OpIp false false [b; a]; OpMac false [0x001122334455]] in
+  let tries := b_tries (run hash_lpm_set ops) in
+  forall order, In order [[SSnapshot; SInstall; SUserspace]; [SSnapshot; SUserspace; SInstall];
+                          [SSnapshot; SInstall; SUserspace; SInstall]] ->
+    exists m, order_run false true (mem_init tries) order = Some m
+              /\ m_installs m <> [] /\ m_lpm m <> None
+              /\ forallb (fun inst => Nat.eqb (length (concat inst)) 3) (m_installs m) = true.
+Proof. exact any_order_nonvacuous_proof. Qed.
